@@ -38,3 +38,40 @@ SPECS["C03"] = {
          "limits": {"quick": {"timeout": "600s"}, "thorough": {"timeout": "3000s"}}},
     ],
 }
+
+SPECS["C02"] = {
+    "explanation": "Two harness families drive the real Lexer.Run symbolically. ALL-STRINGS: every byte string without NUL of the stated length; "
+                   "asserted implications: accepted => exactly one of metric/event, non-empty name, non-NaN value whose text the real ParseFloat accepts, "
+                   "finite positive rate, known type spelling after the value separator, non-empty separator-free tags; no name separator or no value "
+                   "separator => rejected. GRAMMAR: the line is generated from symbolic pieces (key, value, one of the five type spellings, 0..3 attribute "
+                   "fields of kind @rate / #tags / unknown) and the expected name (README normalisation, namespace), value, type, rate and ordered "
+                   "non-empty tags are computed from the pieces, not by re-parsing; lines whose value or rate is not acceptable must be rejected. "
+                   "EVENTS: _e{n,m}:title|text with symbolic title/text and 0..3 attribute fields (d h k p s t #), expected fields computed from the pieces.",
+    "bounds": {
+        "quick": "all strings of length 1..6 (namespace \"\" and \"ns\" at 5); grammar lines with key<=2, value<=2 bytes, <=1 attribute field of <=2 bytes; events title<=2, text<=3, <=2 fields of <=2 bytes",
+        "thorough": "all strings of length 1..8 (ns at 7); grammar: <=3 fields of <=2 bytes, 1 field of 4 bytes; events: text<=4, <=3 fields",
+    },
+    "outside": ["lines longer than the byte bound", "NUL bytes (C03)", "the numeric meaning of value text: delegated to strconv.ParseFloat (stub below)",
+                "empty attribute fields (||) - not part of the documented form"],
+    "assumptions": STUBS_COMMON + [PF_STUB],
+    "jobs": [
+        {"pkg": "./internal/lexer", "harness": "internal/lexer", "mode": "machine", "nonterm_is_violation": True,
+         "entries": {"quick": ["VerifC02_All1", "VerifC02_All2", "VerifC02_All3", "VerifC02_All4", "VerifC02_All5", "VerifC02_All6", "VerifC02_AllNs5",
+                               "VerifC02_Gram_1_1_0", "VerifC02_Gram_2_1_0", "VerifC02_Gram_2_2_0",
+                               "VerifC02_Gram_1_1_1x1", "VerifC02_Gram_1_1_1x2",
+                               "VerifC02_Event_1_1_0", "VerifC02_Event_2_3_0", "VerifC02_Event_0_0_1x1", "VerifC02_Event_1_2_1x2", "VerifC02_Event_1_1_2x1",
+                               "VerifC02_AllTwin", "VerifC02_GramTwin"],
+                     "thorough": ["VerifC02_All1", "VerifC02_All2", "VerifC02_All3", "VerifC02_All4", "VerifC02_All5", "VerifC02_All6", "VerifC02_All7",
+                                  "VerifC02_All8", "VerifC02_AllNs5", "VerifC02_AllNs7",
+                                  "VerifC02_Gram_1_1_0", "VerifC02_Gram_2_1_0", "VerifC02_Gram_2_2_0", "VerifC02_Gram_3_1_0",
+                                  "VerifC02_Gram_1_1_1x1", "VerifC02_Gram_1_1_1x2", "VerifC02_Gram_1_1_1x3", "VerifC02_Gram_1_1_2x1", "VerifC02_Gram_1_1_2x2",
+                                  "VerifC02_Gram_2_1_2x2", "VerifC02_Gram_1_1_3x2", "VerifC02_Gram_1_1_1x4",
+                                  "VerifC02_Event_1_1_0", "VerifC02_Event_2_3_0", "VerifC02_Event_0_0_1x1", "VerifC02_Event_1_2_1x2", "VerifC02_Event_1_1_2x1",
+                                  "VerifC02_Event_1_2_2x2", "VerifC02_Event_2_4_1x3", "VerifC02_Event_1_1_3x1",
+                                  "VerifC02_AllTwin", "VerifC02_GramTwin"]},
+         "reach": {"VerifC02_All5": ["metric", "rejected"], "VerifC02_All6": ["metric", "rejected"],
+                   "VerifC02_Gram_1_1_1x2": ["expect-accept", "expect-reject"], "VerifC02_Event_1_2_1x2": ["event-accepted"]},
+         "twin": {"VerifC02_AllTwin": True, "VerifC02_GramTwin": True},
+         "limits": {"quick": {"timeout": "900s"}, "thorough": {"timeout": "3000s"}}},
+    ],
+}
